@@ -262,6 +262,19 @@ func (t *txmonitor) check(newBlock uint64, lastNonce uint64) {
 		for i, result := range batch {
 			tHash := txHashes[start+i]
 			nonce := nonceMap[tHash]
+			if result.Error != nil && !errors.Is(result.Error, ethereum.NotFound) {
+				// A missing receipt is encoded as JSON null by the node, which the
+				// batch element cannot decode. Ask for this receipt individually:
+				// the client maps the null answer to ethereum.NotFound.
+				receipt, err := t.client.TransactionReceipt(t.baseCtx, tHash)
+				switch {
+				case err == nil && receipt != nil:
+					t.notify(nonce, tHash, Result{receipt, nil})
+					continue
+				case errors.Is(err, ethereum.NotFound):
+					result.Error = ethereum.NotFound
+				}
+			}
 			if result.Error != nil {
 				if errors.Is(result.Error, ethereum.NotFound) {
 					t.notify(nonce, tHash, Result{nil, ErrTxnCancelled})
